@@ -219,7 +219,7 @@ mod __verif_c41 {
         std::mem::forget(got);
     }
 
-    // @harness tiers=thorough timeout=2400
+    // @harness tiers=experimental timeout=2400
     // @encodes metastore::gravitino::dechunk
     // @bounds size line = 16 symbolic hex digits (any size >= 2^60, e.g. ffffffffffffffff and fffffffffffffffe), CRLF, then 0 or 2 symbolic bytes
     // @oracle no panic (no overflow in `size + 2`, no out-of-range slice); a declared size larger than what follows is rejected
@@ -231,7 +231,7 @@ mod __verif_c41 {
         huge_case(2);
     }
 
-    // @harness tiers=thorough timeout=2400
+    // @harness tiers=experimental timeout=2400
     // @encodes metastore::gravitino::dechunk
     // @bounds size line = 17 symbolic hex digits with a non-zero leading digit (a size >= 2^64 that no usize can hold), CRLF, then `hello CRLF 0 CRLF CRLF`
     // @oracle a chunk size that does not fit in usize is malformed framing: rejected, never reduced modulo 2^64 (which would make 10000000000000005 decode as 5, or 10000000000000000 look like the terminator)
